@@ -24,7 +24,8 @@ inductive XExpr where
   | eq (a b : XExpr)
   | sum2 (a b : XExpr)
   | left (t n : XExpr)
-  | iff (c t : XExpr) (f : Option XExpr)
+  | if3 (c t f : XExpr)
+  | if2 (c t : XExpr)                        -- IF with the else-branch omitted
   | ifsNil                                   -- end of an IFS argument list
   | ifsCons (c v : XExpr) (rest : XExpr)     -- IFS(c, v, rest…)
   | iferror (a b : XExpr)
@@ -63,10 +64,14 @@ def evalX : XExpr → Res
   | .eq a b => strict2 opEq (evalX a) (evalX b)
   | .sum2 a b => strict2 opSum (evalX a) (evalX b)
   | .left t n => strict2 opLeft (evalX t) (evalX n)
-  | .iff c t f =>
+  | .if3 c t f =>
     match evalX c with
     | .error e => .error e
-    | .ok cv => if truthy cv then evalX t else (match f with | some f => evalX f | none => .ok (.bool false))
+    | .ok cv => if truthy cv then evalX t else evalX f
+  | .if2 c t =>
+    match evalX c with
+    | .error e => .error e
+    | .ok cv => if truthy cv then evalX t else .ok (.bool false)
   | .ifsNil => .ok errNA
   | .ifsCons c v rest =>
     match evalX c with
@@ -89,7 +94,8 @@ def translateX : XExpr → PyExpr
   | .eq a b => .cmpEq (translateX a) (translateX b)
   | .sum2 a b => .sum2 (translateX a) (translateX b)
   | .left t n => .left (translateX t) (translateX n)
-  | .iff c t f => .cond (translateX t) (translateX c) (match f with | some f => translateX f | none => .const (.bool false))
+  | .if3 c t f => .cond (translateX t) (translateX c) (translateX f)
+  | .if2 c t => .cond (translateX t) (translateX c) (.const (.bool false))
   | .ifsNil => .ifsCall .nil
   | .ifsCons c v rest => .ifsCall (.cons (translateX c) (.cons (translateX v) (ifsTail rest)))
   | .iferror a b => .iferrorCall (translateX a) (translateX b)
@@ -104,8 +110,8 @@ def wellFormed : XExpr → Bool
   | .lit _ | .ref _ => true
   | .div a b | .add a b | .mul a b | .cat a b | .eq a b | .sum2 a b | .left a b | .iferror a b =>
     wellFormed a && wellFormed b && !isNil a && !isNil b
-  | .iff c t f => wellFormed c && wellFormed t && !isNil c && !isNil t &&
-      (match f with | some f => wellFormed f && !isNil f | none => true)
+  | .if3 c t f => wellFormed c && wellFormed t && wellFormed f && !isNil c && !isNil t && !isNil f
+  | .if2 c t => wellFormed c && wellFormed t && !isNil c && !isNil t
   | .ifsNil => true
   | .ifsCons c v rest => wellFormed c && wellFormed v && !isNil c && !isNil v && wellFormed rest && isChain rest
 where
